@@ -1,3 +1,3 @@
-import ArtapModel.Model.Swarm
+import ArtapModel.Model.SwarmAll
 /-! Line-protocol driver for C18: `lake env lean --run drivers/C18.lean < requests`. -/
-def main : IO Unit := Artap.Proto.serve Artap.Swarm.handle
+def main : IO Unit := Artap.Proto.serve Artap.SwarmAll.handle
